@@ -137,7 +137,9 @@ PathOpen(s, c) ==
     ELSE LET d == FdOf(s, c.dirfd) IN
     IF d.st = "std" THEN Res(s, EBADF, NoOut)
     ELSE IF c.path = "" /\ ~c.dot THEN Res(s, EINVAL, NoOut)
-    ELSE IF d.kind = "file" THEN Res(s, ENOTDIR, NoOut)
+    \* a descriptor of a regular file in the place of a directory: its PATH is what the guest path is joined to; while that is still the
+    \* file's name the host answers "not a directory" (once the name is gone or names something else: no statement)
+    ELSE IF d.kind = "file" THEN Res(s, IF Exists(s, d.path) /\ s.fs[d.path].kind = "file" THEN ENOTDIR ELSE EUNSPEC, NoOut)
     ELSE
     LET w == IF c.walk THEN WalkOf(s, c, d) ELSE WOk(<<>>)
         p == IF c.walk THEN JoinSeq(IF c.wlast = "" THEN w.seq ELSE Append(w.seq, c.wlast))
